@@ -36,8 +36,9 @@ def relevant(prop, m):
     if prop == "C12":
         return k == "invalid-point" or (k in ("value", "ret") and op in ("P.Equal", "P.Bytes"))
     if prop == "C14":
+        setter = op.endswith("Bytes") and ".Set" in op or op == "P.SetExtendedCoordinates" or op == "S.SetBytesWithClamping"
         return k == "retptr" or (k == "recv-on-fail" and "panic" not in m.detail) or \
-            (k == "outcome" and ("err" in m.detail) and "panic" not in m.detail)
+            (k == "outcome" and ("err" in m.detail) and "panic" not in m.detail) or (k == "arg-modified" and setter)
     if prop == "C15":
         return (k == "outcome" and "panic" in m.detail) or k == "recv-on-fail"
     ops = OPS.get(prop, set())
